@@ -157,6 +157,8 @@ Fixpoint py_md_item (k : nat) (m : metadata) : pyty :=
 Definition py_dict_in (k : nat) (m : submap) : bool := match lookup k m with Some _ => true | None => false end.
 Definition py_dict_get (k : nat) (m : submap) : option (list nat) := lookup k m.
 Definition py_dict_item (k : nat) (m : submap) : list nat := subscribers m k.          (* d[k] where k in d *)
+Definition py_optlist_is_none (o : option (list nat)) : bool := match o with None => true | Some _ => false end.
+Definition py_optlist_truth (o : option (list nat)) : bool := match o with Some (_ :: _) => true | _ => false end.
 Fixpoint py_dict_set (k : nat) (v : list nat) (m : submap) : submap :=               (* d[k] = v *)
   match m with
   | [] => [(k, v)]
@@ -292,14 +294,16 @@ class Env:
         self.state_tx = None        # fire mode: current state
         self.fields = {}            # constructors: attribute -> V
         self.reg_tx = None          # EventType constructor: current registry
-        self.guard = None           # innermost enclosing test (node, polarity)
+        self.guard = None           # innermost enclosing test (node, polarity, environment)
+        self.guards = ()            # all enclosing tests, outermost first
         self.loopvars = {}          # loop variable name -> text of the dict it is a key of
+        self.epoch = 0              # bumped whenever a list stored in the listener map may have been replaced / dropped
 
     def clone(self):
         e = Env()
         e.locals, e.poss, e.din, e.lin = dict(self.locals), dict(self.poss), self.din, self.lin
         e.dict_tx, e.state_tx, e.fields, e.reg_tx = self.dict_tx, self.state_tx, dict(self.fields), self.reg_tx
-        e.guard, e.loopvars = self.guard, dict(self.loopvars)
+        e.guard, e.loopvars, e.epoch, e.guards = self.guard, dict(self.loopvars), self.epoch, self.guards
         return e
 
     def apply(self, f: Facts):
@@ -310,9 +314,21 @@ class Env:
         e.lin = e.lin | f.lin
         return e
 
+    @property
+    def dead(self):
+        """contradictory tests on this path: it cannot be taken, nothing needs to be established on it"""
+        return any(len(a) == 0 for a in self.poss.values())
+
+    def has_in(self, k):
+        return k in self.din or self.dead
+
+    def has_lin(self, pair):
+        return pair in self.lin or self.dead
+
     def forget_map(self):
         e = self.clone()
         e.din, e.lin = frozenset(), frozenset()
+        e.epoch += 1
         return e
 
 
@@ -324,6 +340,8 @@ class Ctx:
         self.check_depth = 0        # inside the body of a check loop: raise = Some kind, end = None
         self.in_ghost = False
         self.event_tx = None        # fire mode: text of the event the invocation is about
+        self.ret_k = None           # what `return` / falling off the end means here (the method's end, or the end of an inlined helper)
+        self.inline_stack = []      # helpers being inlined (recursion is refused)
 
     def fresh(self, stem):
         self.counter[stem] = self.counter.get(stem, 0) + 1
@@ -351,6 +369,7 @@ class Translator:
     def module_checks(self):
         self.has_inspect = False
         self.has_logger = False
+        self.functions = {}
         for st in self.tree.body:
             names = []
             if isinstance(st, ast.Import):
@@ -368,6 +387,9 @@ class Translator:
                     names.append(a.asname or a.name)
             elif isinstance(st, (ast.FunctionDef, ast.AsyncFunctionDef)):
                 names.append(st.name)
+                if st.name in self.functions:
+                    self.fail(st, f"function {st.name} defined twice")
+                self.functions[st.name] = st
             elif isinstance(st, ast.ClassDef):
                 names.append(st.name)
                 if st.name in self.classes:
@@ -491,6 +513,7 @@ class Translator:
             if isinstance(n, (ast.Yield, ast.YieldFrom, ast.Await, ast.Global, ast.Nonlocal, ast.NamedExpr)):
                 self.fail(n, type(n).__name__)
         ctx = Ctx(cname, mname, mode, f)
+        ctx.ret_k = self.finish
         saved = self.ctx
         self.ctx = ctx
         try:
@@ -587,7 +610,7 @@ class Translator:
     # ------------------------------------------------------------------ a value used as ...
     def known(self, env, v, allowed):
         full = DOM[v.ty]
-        return env.poss.get(v.tx, full) <= frozenset(allowed)
+        return env.dead or env.poss.get(v.tx, full) <= frozenset(allowed)
 
     def as_etid(self, node, v, env):
         if v.ty == "ETId":
@@ -656,8 +679,28 @@ class Translator:
             return V("StrC", None, const=None)
         if isinstance(e, ast.Name):
             if e.id in env.locals:
-                return env.locals[e.id]
+                v = env.locals[e.id]
+                if v.get("lazy"):
+                    # a local name for a list stored in the listener map: read through the map as it is now
+                    if v.get("epoch") != env.epoch:
+                        self.fail(e, f"`{e.id}` names a list of the listener map that may have been replaced or dropped since it was bound")
+                    k = v.get("lazy")
+                    d = self.dict_now(e, env)
+                    if env.has_in(k):
+                        return V("LList", f"(py_dict_item {k} {d})", alias=k)
+                    return V("OptLList", f"(py_dict_get {k} {d})", key=k)
+                return v
             self.fail(e, f"name `{e.id}` (not a parameter or a local assigned on every path before)")
+        if isinstance(e, ast.Dict):
+            if e.keys:
+                self.fail(e, "non-empty dict literal")
+            return V("Dict", "[]", fresh=True)
+        if isinstance(e, ast.IfExp):
+            cd = self.cond(e.test, env)
+            a, b = self.ex(e.body, env.apply(cd.t)), self.ex(e.orelse, env.apply(cd.f))
+            if a.ty == b.ty and a.tx is not None and b.tx is not None and a.ty in ("Nat", "Bool", "ETId", "LisId") :
+                return V(a.ty, f"(if {cd.tx} then {a.tx} else {b.tx})")
+            self.fail(e, f"conditional expression between values of kinds {a.ty} and {b.ty}")
         if isinstance(e, ast.List):
             if e.elts:
                 self.fail(e, "non-empty list literal")
@@ -700,7 +743,7 @@ class Translator:
             base, key = self.ex(e.value, env), self.ex(e.slice, env)
             if base.ty == "Dict":
                 k = self.as_etid(e, key, env)
-                if k not in env.din:
+                if not env.has_in(k):
                     self.fail(e, f"`{ast.unparse(e)[:50]}`: the key is not known to be in the listener map here (KeyError)")
                 return V("LList", f"(py_dict_item {k} {base.tx})", alias=k)
             if base.ty == "RawMd":
@@ -726,7 +769,127 @@ class Translator:
             return self.call(e, env)
         self.fail(e, f"expression {type(e).__name__}")
 
+    def dict_now(self, node, env):
+        c = self.ctx
+        if c.cls == "EventProducer" and c.mode in ("map", "get"):
+            return env.dict_tx
+        if c.cls == "EventProducer" and c.mode == "fire":
+            return f"(subs_of {env.state_tx} p)"
+        self.fail(node, "the listener map outside a method of EventProducer")
+
+    # ---- private helpers (methods of the same class / module-level functions that are not translated methods): inlined
+    def helper_of(self, call, env):
+        f = call.func
+        if isinstance(f, ast.Attribute) and isinstance(f.value, ast.Name) and f.value.id == "self" and "self" not in env.locals:
+            cname = self.ctx.cls
+            while True:
+                if (cname, f.attr) in MODE:
+                    return None
+                fd = self.find_method(cname, f.attr, call)
+                if fd is not None:
+                    decs = [ast.unparse(d) for d in fd.decorator_list]
+                    if decs not in ([], ["staticmethod"]):
+                        self.fail(fd, f"helper {cname}.{f.attr} is decorated with {decs}")
+                    return fd, (0 if decs else 1)
+                if not BASES[cname] or BASES[cname][0] not in MODE_CLASSES:
+                    return None
+                cname = BASES[cname][0]
+        if isinstance(f, ast.Name) and f.id in self.functions and f.id not in env.locals:
+            fd = self.functions[f.id]
+            if fd.decorator_list or isinstance(fd, ast.AsyncFunctionDef):
+                self.fail(fd, f"helper {f.id} is decorated / async")
+            return fd, 0
+        return None
+
+    def bind_helper(self, fd, skip, call, env):
+        """the helper's parameters bound to the (pure) arguments of the call"""
+        a = fd.args
+        if a.vararg or a.kwarg or a.kwonlyargs or a.posonlyargs:
+            self.fail(fd, f"helper {fd.name}: *args / **kwargs / keyword-only / positional-only parameters")
+        if fd in self.ctx.inline_stack or len(self.ctx.inline_stack) > 6:
+            self.fail(call, f"helper {fd.name} is recursive")
+        for n in ast.walk(fd):
+            if isinstance(n, (ast.FunctionDef, ast.AsyncFunctionDef, ast.Lambda, ast.ClassDef)) and n is not fd:
+                self.fail(n, "nested function / class / lambda")
+            if isinstance(n, (ast.Yield, ast.YieldFrom, ast.Await, ast.Global, ast.Nonlocal, ast.NamedExpr)):
+                self.fail(n, type(n).__name__)
+        if any(isinstance(x, ast.Starred) for x in call.args) or any(k.arg is None for k in call.keywords):
+            self.fail(call, "starred arguments")
+        params = [p.arg for p in a.args[skip:]]
+        if skip and (not a.args or a.args[0].arg != "self"):
+            self.fail(fd, f"helper {fd.name}: first parameter is not `self`")
+        if len(call.args) > len(params):
+            self.fail(call, f"{fd.name}() called with too many arguments")
+        bound = {}
+        for name, arg in zip(params, call.args):
+            bound[name] = arg
+        for kw in call.keywords:
+            if kw.arg not in params or kw.arg in bound:
+                self.fail(call, f"{fd.name}() has no free parameter `{kw.arg}`")
+            bound[kw.arg] = kw.value
+        defaults = dict(zip(params[len(params) - len(a.defaults):], a.defaults))
+        out = {}
+        for name in params:
+            node = bound.get(name, defaults.get(name))
+            if node is None:
+                self.fail(call, f"{fd.name}() called without a value for `{name}`")
+            if name not in bound and not (isinstance(node, ast.Constant) and (node.value is None or isinstance(node.value, bool))):
+                self.fail(node, f"default of `{name}` that is not None / True / False")
+            v = self.ex(node, env)
+            if v.ty in ("Dict", "KeysView", "Registry") or (v.ty == "LList" and v.get("alias")) or v.ty == "OptLList":
+                self.fail(call, f"the listener map / a list stored in it passed to {fd.name}() (aliasing of mutable state)")
+            out[name] = v
+        return out
+
+    def helper_env(self, env, bound):
+        he = env.clone()
+        he.locals = bound          # the enclosing tests of the call site stay in force inside the helper
+        return he
+
+    def helper_value(self, call, env, as_cond):
+        """a helper called for its value: its body must be a single `return <pure expression>`"""
+        h = self.helper_of(call, env)
+        if h is None:
+            return None
+        fd, skip = h
+        body = self.strip_doc(fd.body)
+        if len(body) != 1 or not isinstance(body[0], ast.Return) or body[0].value is None:
+            self.fail(call, f"helper {fd.name}() used as a value, but its body is more than one `return <expression>`")
+        he = self.helper_env(env, self.bind_helper(fd, skip, call, env))
+        self.ctx.inline_stack.append(fd)
+        try:
+            return self.cond(body[0].value, he) if as_cond else self.ex(body[0].value, he)
+        finally:
+            self.ctx.inline_stack.pop()
+
+    def inline_stmt(self, fd, skip, call, env, k):
+        """a helper called as a statement: its body in place of the call; `return` continues after the call"""
+        c = self.ctx
+        he = self.helper_env(env, self.bind_helper(fd, skip, call, env))
+        outer_ret, outer_stack, outer_depth = c.ret_k, list(c.inline_stack), c.check_depth
+
+        def back(e2):
+            e3 = e2.clone()
+            e3.locals, e3.guard, e3.guards = dict(env.locals), env.guard, env.guards
+            saved = (c.ret_k, c.inline_stack)
+            c.ret_k, c.inline_stack = outer_ret, list(outer_stack)
+            try:
+                return k(e3)
+            finally:
+                c.ret_k, c.inline_stack = saved
+        if outer_depth:
+            self.fail(call, "helper call inside a check loop")
+        c.ret_k = back
+        c.inline_stack = outer_stack + [fd]
+        try:
+            return self.block(self.strip_doc(fd.body), he, back)
+        finally:
+            c.ret_k, c.inline_stack = outer_ret, outer_stack
+
     def call(self, e, env) -> V:
+        hv = self.helper_value(e, env, False)
+        if hv is not None:
+            return hv
         if e.keywords or any(isinstance(a, ast.Starred) for a in e.args):
             self.fail(e, "keyword / starred arguments")
         f = e.func
@@ -746,6 +909,8 @@ class Translator:
                     return V("LList", v.tx, alias=None)
                 if v.ty == "KeysView":
                     return V("ETList", f"(py_dict_keys {v.get('of')})")
+                if v.ty == "Dict":
+                    return V("ETList", f"(py_dict_keys {v.tx})")
                 if v.ty == "ETList":
                     return v
                 self.fail(e, f"list() of a value of kind {v.ty}")
@@ -757,6 +922,8 @@ class Translator:
                     return V("Items", self.as_items(e, v, env))
             if f.id == "isinstance":
                 return V("Bool", self.cond(e, env).tx)
+            if f.id == "bool" and len(e.args) == 1:
+                return V("Bool", self.cond(e.args[0], env).tx)
             self.fail(e, f"call of `{f.id}`")
         if isinstance(f, ast.Attribute):
             base = self.ex(f.value, env)
@@ -774,9 +941,9 @@ class Translator:
                 key = self.ex(e.args[0], env)
                 if base.ty == "Dict":
                     k = self.as_etid(e, key, env)
-                    if k in env.din:
+                    if env.has_in(k):
                         return V("LList", f"(py_dict_item {k} {base.tx})", alias=k)
-                    return V("OptLList", f"(py_dict_get {k} {base.tx})")
+                    return V("OptLList", f"(py_dict_get {k} {base.tx})", key=k)
                 if base.ty == "Items":
                     if key.ty != "Key":
                         self.fail(e, f"payload looked up with a key of kind {key.ty}")
@@ -831,6 +998,10 @@ class Translator:
             return Cond(f"(negb {c.tx})", c.f, c.t)
         if isinstance(e, ast.Call) and isinstance(e.func, ast.Name) and e.func.id == "isinstance" and "isinstance" not in env.locals:
             return self.isinstance_(e, env)
+        if isinstance(e, ast.Call):
+            hc = self.helper_value(e, env, True)
+            if hc is not None:
+                return hc
         if isinstance(e, ast.Compare):
             if len(e.ops) != 1:
                 self.fail(e, "chained comparison")
@@ -845,6 +1016,8 @@ class Translator:
         if v.ty in ("OptMd", "RawMd"):
             fn = "py_optmd_truth" if v.ty == "OptMd" else "py_rawmd_truth"
             return Cond(f"({fn} {v.tx})", Facts({v.tx: (frozenset({"Some"}), DOM[v.ty])}), Facts())
+        if v.ty == "OptLList":
+            return Cond(f"(py_optlist_truth {v.tx})", Facts(din={v.get("key")}), Facts())
         self.fail(e, f"truth value of a value of kind {v.ty}")
 
     def isinstance_(self, e, env) -> Cond:
@@ -852,6 +1025,8 @@ class Translator:
             self.fail(e, "isinstance with other than two arguments")
         v = self.ex(e.args[0], env)
         t = e.args[1]
+        if isinstance(t, ast.Tuple) and len(t.elts) == 1:
+            t = t.elts[0]
         tname = t.id if isinstance(t, ast.Name) and t.id not in env.locals else None
 
         def narrow(fn, tset):
@@ -901,11 +1076,16 @@ class Translator:
                                 Facts({v.tx: (frozenset({"Some"}), DOM[v.ty])})))
             if v.ty == "OptVal":
                 return out(Cond(f"(py_optval_is_none {v.tx})"))
+            if v.ty == "OptLList":
+                return out(Cond(f"(py_optlist_is_none {v.tx})", Facts(), Facts(din={v.get("key")})))
+            if v.ty == "LList":
+                return out(Cond("false"))
             self.fail(e, f"comparison of a value of kind {v.ty} with None")
         if isinstance(op, (ast.In, ast.NotIn)):
-            if b.ty == "Dict":
+            if b.ty in ("Dict", "KeysView"):
                 k = self.as_etid(e, a, env)
-                return out(Cond(f"(py_dict_in {k} {b.tx})", Facts(din={k}), Facts()))
+                d = b.tx if b.ty == "Dict" else b.get("of")
+                return out(Cond(f"(py_dict_in {k} {d})", Facts(din={k}), Facts()))
             if b.ty == "LList":
                 x = self.as_lisid(e, a, env)
                 lin = {(b.get("alias"), x)} if b.get("alias") else set()
@@ -937,25 +1117,54 @@ class Translator:
         if isinstance(s, ast.Raise):
             return self.raise_(env, self.classify_raise(s, env))
         if isinstance(s, ast.Return):
-            if s.value is not None:
-                self.fail(s, "return with a value")
             if c.check_depth:
                 self.fail(s, "return inside a loop")
-            if c.mode not in ("map", "fire"):
-                self.fail(s, "return in a constructor")
-            return self.finish(env)
+            if s.value is not None:
+                if not c.inline_stack:
+                    self.fail(s, "return with a value")
+                self.ex(s.value, env)        # the value of a helper called as a statement is dropped; it must be a pure expression
+            return c.ret_k(env)
+        if isinstance(s, ast.Continue):
+            if not c.check_depth:
+                self.fail(s, "continue outside a check loop")
+            return "None"
         if isinstance(s, ast.If):
+            # `not`, `and`, `or` in the test of a statement: nested ifs with the branches repeated, so that every path
+            # knows exactly which atomic tests came out how (short-circuit order kept)
+            tst = s.test
+            if isinstance(tst, ast.UnaryOp) and isinstance(tst.op, ast.Not) and isinstance(tst.operand, (ast.BoolOp, ast.UnaryOp)):
+                return self.stmt(ast.copy_location(ast.If(test=tst.operand, body=s.orelse or [ast.copy_location(ast.Pass(), s)],
+                                                          orelse=s.body), s), env, k)
+            if isinstance(tst, ast.BoolOp):
+                first, rest = tst.values[0], tst.values[1:]
+                more = rest[0] if len(rest) == 1 else ast.copy_location(ast.BoolOp(op=tst.op, values=rest), tst)
+                if isinstance(tst.op, ast.And):
+                    inner = ast.copy_location(ast.If(test=more, body=s.body, orelse=s.orelse), s)
+                    return self.stmt(ast.copy_location(ast.If(test=first, body=[inner], orelse=s.orelse), s), env, k)
+                inner = ast.copy_location(ast.If(test=more, body=s.body, orelse=s.orelse), s)
+                return self.stmt(ast.copy_location(ast.If(test=first, body=s.body, orelse=[inner]), s), env, k)
             cd = self.cond(s.test, env)
-            outer = env.guard
+            outer, outers = env.guard, env.guards
 
             def back(e2):
                 e3 = e2.clone()
-                e3.guard = outer
+                e3.guard, e3.guards = outer, outers
+                return k(e3)
+
+            def back_else(e2):
+                # `if t: <leaves>` followed by more statements: they stand under `not t`
+                e3 = e2.clone()
+                if not s.orelse and self.leaves(s.body):
+                    e3.guard = (s.test, False, env)
+                    e3.guards = outers + (e3.guard,)
+                else:
+                    e3.guard, e3.guards = outer, outers
                 return k(e3)
             et, ef = env.apply(cd.t), env.apply(cd.f)
-            et.guard, ef.guard = (s.test, True), (s.test, False)
+            et.guard, ef.guard = (s.test, True, env), (s.test, False, env)
+            et.guards, ef.guards = outers + (et.guard,), outers + (ef.guard,)
             a = self.block(s.body, et, back)
-            b = self.block(s.orelse, ef, back)
+            b = self.block(s.orelse, ef, back_else)
             return f"if {cd.tx} then\n{ind(blk(a))}\nelse\n{ind(blk(b))}"
         if isinstance(s, (ast.Assign, ast.AnnAssign)):
             if isinstance(s, ast.Assign):
@@ -975,7 +1184,7 @@ class Translator:
             if base.ty != "Dict" or c.mode != "map" or c.check_depth:
                 self.fail(s, "del outside a method that works on the listener map")
             key = self.as_etid(s, self.ex(t.slice, env), env)
-            if key not in env.din:
+            if not env.has_in(key):
                 self.fail(s, "del of a key that is not known to be in the listener map (KeyError)")
             return self.new_map(env, f"py_dict_del {key} {base.tx}", k, keep=False)
         if isinstance(s, ast.Expr) and isinstance(s.value, ast.Call):
@@ -984,10 +1193,16 @@ class Translator:
             return self.for_(s, env, k)
         self.fail(s, f"statement {type(s).__name__}")
 
-    def new_map(self, env, text, k, keep=True, add_in=None):
+    @staticmethod
+    def leaves(stmts):
+        return bool(stmts) and isinstance(stmts[-1], (ast.Raise, ast.Return, ast.Continue))
+
+    def new_map(self, env, text, k, keep=True, add_in=None, bump=False):
         nm = self.ctx.fresh("m")
         e2 = env.clone()
         e2.dict_tx = nm
+        if bump or not keep:
+            e2.epoch += 1
         e2.lin = frozenset()
         e2.din = (env.din if keep else frozenset()) | (frozenset({add_in}) if add_in else frozenset())
         return f"let {nm} := {text} in\n{k(e2)}"
@@ -1003,82 +1218,112 @@ class Translator:
         for a in e.args:
             if not isinstance(a, (ast.Constant, ast.JoinedStr, ast.BinOp)) or any(isinstance(n, ast.Call) for n in ast.walk(a)):
                 self.fail(a, "EventError argument that is not a text")
-        if env.guard is None:
+        if not env.guards:
             self.fail(s, "unconditional raise")
-        test, pol = env.guard
-        while isinstance(test, ast.UnaryOp) and isinstance(test.op, ast.Not):
-            test, pol = test.operand, not pol
+        # the literals that hold where the raise stands, in evaluation order; the LAST one that names a refusal decides.
+        # (The kind is a label of the model - every kind is an EventError in Python; a label the hand-written model
+        # does not give makes the agreement proof fail, it cannot make it succeed wrongly.)
+        lits = []
+        for g in env.guards:
+            lits += self.literals(g[0], g[1], env)
         ctor_et = self.ctx.mode == "ctor_et"
 
         def is_inst(n):
             return isinstance(n, ast.Call) and isinstance(n.func, ast.Name) and n.func.id == "isinstance" and len(n.args) == 2
-        inst = None
-        if is_inst(test) and not pol:
-            inst = test
-        elif isinstance(test, ast.BoolOp) and isinstance(test.op, ast.Or) and not pol:
-            insts = [v for v in test.values if is_inst(v)]
-            rest = [v for v in test.values if not is_inst(v)]
-            if len(insts) == 1 and all(isinstance(v, ast.Compare) and len(v.ops) == 1 and isinstance(v.ops[0], (ast.Eq, ast.Is))
-                                       and ast.unparse(v.left) == ast.unparse(insts[0].args[0])
-                                       and isinstance(v.comparators[0], ast.Constant) and v.comparators[0].value is None for v in rest):
-                inst = insts[0]
-        if inst is not None:
-            v = self.ex(inst.args[0], env)
-            cl = ast.unparse(inst.args[1])
-            if v.ty == "Arg" and not ctor_et:
-                return {"EventType": "ENotEventType", "EventListener": "ENotListener"}[v.get("cls")]
-            if v.ty == "EvArg" and cl in ("Event", "TimedEvent"):
-                return {"Event": "ENotEvent", "TimedEvent": "ENotTimedEvent"}[cl]
-            if v.ty == "Content":
-                return "ENotDict"
-            if v.ty == "Ts":
-                return "ETimestamp"
-            if v.ty == "OptVal":
-                return f"EWrongType {v.get('key')}"
-            if ctor_et and v.ty == "Name":
-                return "ENameNotStr"
-            if ctor_et and v.ty == "MdKey":
-                return "EKeyNotStr"
-            if ctor_et and v.ty == "MdVal":
-                return "EValueNotType"
-        if isinstance(test, ast.Compare) and len(test.ops) == 1:
-            op, l, r = test.ops[0], test.left, test.comparators[0]
 
-            def is_len(n):
-                return isinstance(n, ast.Call) and isinstance(n.func, ast.Name) and n.func.id == "len"
-            if is_len(l) and is_len(r) and ((isinstance(op, ast.NotEq) and pol) or (isinstance(op, ast.Eq) and not pol)) and not ctor_et:
-                return "ELength"
-            none_side = [x for x in (l, r) if isinstance(x, ast.Constant) and x.value is None]
-            if none_side and ((isinstance(op, (ast.Eq, ast.Is)) and pol) or (isinstance(op, (ast.NotEq, ast.IsNot)) and not pol)):
-                v = self.ex(r if none_side[0] is l else l, env)
-                if v.ty == "OptVal":
-                    return f"EMissing {v.get('key')}"
-            if ((isinstance(op, ast.In) and pol) or (isinstance(op, ast.NotIn) and not pol)) and ctor_et \
-                    and self.ex(r, env).ty == "Registry":
-                return "EDuplicate"
-        self.fail(s, f"raise EventError under the test `{ast.unparse(env.guard[0])[:60]}`, for which the model has no refusal kind")
+        def is_len(n):
+            return isinstance(n, ast.Call) and isinstance(n.func, ast.Name) and n.func.id == "len"
+        for test, pol, lenv in reversed(lits):
+            try:
+                if is_inst(test) and not pol:
+                    v = self.ex(test.args[0], lenv)
+                    cl = ast.unparse(test.args[1])
+                    if v.ty == "Arg" and not ctor_et:
+                        return {"EventType": "ENotEventType", "EventListener": "ENotListener"}[v.get("cls")]
+                    if v.ty == "EvArg" and cl in ("Event", "TimedEvent"):
+                        return {"Event": "ENotEvent", "TimedEvent": "ENotTimedEvent"}[cl]
+                    if v.ty == "Content":
+                        return "ENotDict"
+                    if v.ty == "Ts":
+                        return "ETimestamp"
+                    if v.ty == "OptVal":
+                        return f"EWrongType {v.get('key')}"
+                    if ctor_et and v.ty == "Name":
+                        return "ENameNotStr"
+                    if ctor_et and v.ty == "MdKey":
+                        return "EKeyNotStr"
+                    if ctor_et and v.ty == "MdVal":
+                        return "EValueNotType"
+                if isinstance(test, ast.Compare) and len(test.ops) == 1:
+                    op, l, r = test.ops[0], test.left, test.comparators[0]
+                    if is_len(l) and is_len(r) and ((isinstance(op, ast.NotEq) and pol) or (isinstance(op, ast.Eq) and not pol)) \
+                            and not ctor_et:
+                        return "ELength"
+                    none_side = [x for x in (l, r) if isinstance(x, ast.Constant) and x.value is None]
+                    if none_side and ((isinstance(op, (ast.Eq, ast.Is)) and pol) or (isinstance(op, (ast.NotEq, ast.IsNot)) and not pol)):
+                        v = self.ex(r if none_side[0] is l else l, lenv)
+                        if v.ty == "OptVal":
+                            return f"EMissing {v.get('key')}"
+                    if ((isinstance(op, ast.In) and pol) or (isinstance(op, ast.NotIn) and not pol)) and ctor_et \
+                            and self.ex(r, lenv).ty == "Registry":
+                        return "EDuplicate"
+            except Unsupported:
+                continue
+        self.fail(s, f"raise EventError under the test `{ast.unparse(env.guards[-1][0])[:60]}`, for which the model has no refusal kind")
+
+    def literals(self, test, pol, env):
+        """the atomic tests (with polarity and the environment to read them in) known to hold when `test` came out as
+        `pol`, in evaluation order; a helper that is one `return <expression>` is looked into"""
+        if isinstance(test, ast.UnaryOp) and isinstance(test.op, ast.Not):
+            return self.literals(test.operand, not pol, env)
+        if isinstance(test, ast.BoolOp) and isinstance(test.op, ast.And if pol else ast.Or):
+            out = []
+            for v in test.values:
+                out += self.literals(v, pol, env)
+            return out
+        if isinstance(test, ast.Call) and len(self.ctx.inline_stack) < 6:
+            try:
+                h = self.helper_of(test, env)
+                if h is not None:
+                    body = self.strip_doc(h[0].body)
+                    if len(body) == 1 and isinstance(body[0], ast.Return) and body[0].value is not None:
+                        he = self.helper_env(env, self.bind_helper(h[0], h[1], test, env))
+                        return self.literals(body[0].value, pol, he)
+            except Unsupported:
+                pass
+        return [(test, pol, env)]
 
     # ---- assignments
     def assign(self, s, target, value, env, k):
         c = self.ctx
-        if c.check_depth:
-            self.fail(s, "assignment inside a loop")
+        if c.check_depth and not isinstance(target, ast.Name):
+            self.fail(s, "assignment to something else than a local inside a loop")
         if isinstance(target, ast.Name):
             if target.id == "self" or (target.id in env.locals and env.locals[target.id].get("param")):
                 self.fail(s, f"assignment to `{target.id}`")
             if isinstance(value, ast.Call) and isinstance(value.func, ast.Name) and value.func.id in ("Event", "TimedEvent") \
                     and value.func.id not in env.locals:
                 return self.construct(s, value, env, lambda e2, v: k(self.bind_local(e2, target.id, v)))
+            if self.is_setdefault(value, env):
+                return self.setdefault(value, env, lambda e2, key: k(self.bind_local(e2, target.id, V("LList", None, lazy=key, epoch=e2.epoch))))
             v = self.ex(value, env)
-            if v.ty in ("Dict", "KeysView") or (v.ty == "LList" and v.get("alias")):
-                self.fail(s, "a local name for the listener map / a list stored in it (aliasing of mutable state)")
+            if v.ty in ("Dict", "KeysView", "Registry"):
+                self.fail(s, "a local name for the listener map / the registry (aliasing of mutable state)")
+            if (v.ty == "LList" and v.get("alias")) or v.ty == "OptLList":
+                # a name for the list stored under a key: every use reads the map as it is then; the name dies when the
+                # entry may have been replaced or dropped (Env.epoch)
+                if c.check_depth:
+                    self.fail(s, "a local name for a stored list inside a loop")
+                v = V("LList", None, lazy=(v.get("alias") or v.get("key")), epoch=env.epoch)
             return k(self.bind_local(env, target.id, v))
         if isinstance(target, ast.Attribute):
             if not (isinstance(target.value, ast.Name) and target.value.id == "self"):
                 self.fail(s, "assignment to an attribute of something else than self")
+            v = self.ex(value, env)
+            if c.mode == "map" and target.attr == "_listeners" and v.ty == "Dict" and v.get("fresh"):
+                return self.new_map(env, "[]", k, keep=False)       # a new empty dict in place of the old one
             if c.mode not in ("ctor_ev", "ctor_et", "ctor_prod"):
                 self.fail(s, f"assignment to self.{target.attr} outside a constructor")
-            v = self.ex(value, env)
             e2 = env.clone()
             a = target.attr
             if c.mode == "ctor_prod":
@@ -1114,8 +1359,26 @@ class Translator:
             v = self.ex(value, env)
             if v.ty != "LList" or v.get("alias"):
                 self.fail(s, "the listener map is given something else than a fresh list")
-            return self.new_map(env, f"py_dict_set {key} {v.tx} {base.tx}", k, keep=True, add_in=key)
+            return self.new_map(env, f"py_dict_set {key} {v.tx} {base.tx}", k, keep=True, add_in=key, bump=True)
         self.fail(s, f"assignment target {type(target).__name__}")
+
+    def is_setdefault(self, e, env):
+        return isinstance(e, ast.Call) and isinstance(e.func, ast.Attribute) and e.func.attr == "setdefault" \
+            and isinstance(e.func.value, ast.Attribute) and ast.unparse(e.func.value) == "self._listeners"
+
+    def setdefault(self, call, env, k):
+        """self._listeners.setdefault(key, [])  ==  if key not in d: d[key] = []   (k gets the environment and the key)"""
+        c = self.ctx
+        if c.mode != "map" or c.check_depth or call.keywords or len(call.args) != 2:
+            self.fail(call, "setdefault outside a method that works on the listener map / with other than two arguments")
+        base = self.ex(call.func.value, env)
+        key = self.as_etid(call, self.ex(call.args[0], env), env)
+        v = self.ex(call.args[1], env)
+        if v.ty != "LList" or v.get("alias") or v.tx != "[]":
+            self.fail(call, "setdefault with a default that is not a fresh empty list")
+        e_in = env.apply(Facts(din={key}))
+        return (f"if (py_dict_in {key} {base.tx}) then\n{ind(blk(k(e_in, key)))}\nelse\n"
+                + ind(blk(self.new_map(env, f"py_dict_set {key} [] {base.tx}", lambda e2: k(e2, key), keep=True, add_in=key, bump=True))))
 
     @staticmethod
     def bind_local(env, name, v):
@@ -1172,6 +1435,10 @@ class Translator:
         f = call.func
         if call.keywords or any(isinstance(a, ast.Starred) for a in call.args):
             self.fail(call, "keyword / starred arguments")
+        if isinstance(f, ast.Name):
+            h = self.helper_of(call, env)
+            if h is not None and not c.check_depth:
+                return self.inline_stmt(h[0], h[1], call, env, k)
         if not isinstance(f, ast.Attribute):
             self.fail(call, f"call statement `{ast.unparse(call)[:60]}`")
         # logging: no effect on the publish/subscribe state; the arguments must be pure expressions of the subset
@@ -1183,6 +1450,11 @@ class Translator:
             return k(env)
         if c.check_depth:
             self.fail(call, "call inside a check loop")
+        h = self.helper_of(call, env)
+        if h is not None:
+            return self.inline_stmt(h[0], h[1], call, env, k)
+        if self.is_setdefault(call, env):
+            return self.setdefault(call, env, lambda e2, _key: k(e2))
         # self.m(..)
         if isinstance(f.value, ast.Name) and f.value.id == "self":
             sig, args = self.callee(call, c.cls, f.attr, call.args, env)
@@ -1222,12 +1494,21 @@ class Translator:
             return f"let {nm} := py_set_add {key.tx} {base.tx} in\n{k(e2)}"
         if base.ty == "Dict" and f.attr == "clear" and not call.args and c.mode == "map":
             return self.new_map(env, "[]", k, keep=False)
+        if base.ty == "Dict" and f.attr == "pop" and c.mode == "map" and (
+                len(call.args) == 1 or (len(call.args) == 2 and self.ex(call.args[1], env).ty == "None")):
+            key = self.as_etid(call, self.ex(call.args[0], env), env)
+            if env.has_in(key):
+                return self.new_map(env, f"py_dict_del {key} {base.tx}", k, keep=False)
+            if len(call.args) == 1:
+                self.fail(call, "pop of a key that is not known to be in the listener map (KeyError)")
+            return (f"if (py_dict_in {key} {base.tx}) then\n" + ind(blk(self.new_map(env, f"py_dict_del {key} {base.tx}", k, keep=False)))
+                    + f"\nelse\n{ind(blk(k(env)))}")
         if base.ty == "LList" and f.attr in ("append", "remove") and len(call.args) == 1 and c.mode == "map":
             key = base.get("alias")
             if not key:
                 self.fail(call, f".{f.attr}() on a list that is not stored in the listener map")
             x = self.as_lisid(call, self.ex(call.args[0], env), env)
-            if f.attr == "remove" and (key, x) not in env.lin:
+            if f.attr == "remove" and not env.has_lin((key, x)):
                 self.fail(call, "list.remove(x) where x is not known to be in the list (ValueError)")
             fn = "py_list_append" if f.attr == "append" else "py_list_remove"
             new = f"({fn} {base.tx} {x})" if f.attr == "append" else f"({fn} {x} {base.tx})"
@@ -1243,11 +1524,17 @@ class Translator:
             self.fail(s, "loop target that is not a plain name")
         if c.check_depth:
             self.fail(s, "nested loop")
-        for n in ast.walk(s):
-            if isinstance(n, (ast.Break, ast.Continue)):
-                self.fail(n, type(n).__name__)
         var = s.target.id
         it = self.ex(s.iter, env)
+        if it.ty == "OptMd":            # `for key in metadata:` iterates the keys
+            d = self.as_md(s, it, env)
+            it = V("KeyList", f"(py_md_keys {d})", of=d, elem="Key")
+        elif it.ty == "RawMd":
+            d = self.as_rawitems(s, it, env)
+            it = V("KeyList", f"(py_rawmd_keys {d})", of=d, elem="MdKey")
+        for n in ast.walk(s):
+            if isinstance(n, ast.Break) or (isinstance(n, ast.Continue) and it.ty != "KeyList"):
+                self.fail(n, type(n).__name__)
 
         def after(e2):
             e3 = e2.clone()
@@ -1259,7 +1546,7 @@ class Translator:
             eb = env.clone()
             eb.locals[var] = V(it.get("elem"), v)
             eb.loopvars[v] = it.get("of")
-            eb.guard = None
+            eb.guard, eb.guards = None, ()
             c.check_depth += 1
             try:
                 body = self.block(s.body, eb, self.finish)
@@ -1318,16 +1605,49 @@ class Translator:
         self.fail(s, f"iteration over a value of kind {it.ty}")
 
     # ---- a method of the fire family
+    def helper_by_name(self, call):
+        """the helper a call statement names, without an environment (used to look ahead)"""
+        f = call.func
+        if isinstance(f, ast.Attribute) and isinstance(f.value, ast.Name) and f.value.id == "self" and (self.ctx.cls, f.attr) not in MODE:
+            cname = self.ctx.cls
+            while cname in MODE_CLASSES:
+                fd = self.find_method(cname, f.attr, call)
+                if fd is not None:
+                    return fd
+                cname = BASES[cname][0] if BASES[cname] else None
+        if isinstance(f, ast.Name) and f.id in self.functions:
+            return self.functions[f.id]
+        return None
+
+    def notifies(self, stmts, depth=0):
+        for st in stmts:
+            for n in ast.walk(st):
+                if isinstance(n, ast.Call):
+                    if isinstance(n.func, ast.Attribute) and n.func.attr == "notify":
+                        return True
+                    fd = self.helper_by_name(n)
+                    if fd is not None and depth < 6 and self.notifies(fd.body, depth + 1):
+                        return True
+        return False
+
+    def is_guard(self, st, depth=0):
+        """an argument guard: `if <test>: raise ..`, or a call of a helper that consists of such guards"""
+        if isinstance(st, ast.If) and not st.orelse and len(st.body) == 1 and isinstance(st.body[0], ast.Raise):
+            return True
+        if isinstance(st, ast.Expr) and isinstance(st.value, ast.Call) and depth < 6:
+            fd = self.helper_by_name(st.value)
+            if fd is not None:
+                body = self.strip_doc(fd.body)
+                return bool(body) and all(self.is_guard(b, depth + 1) for b in body)
+        return False
+
     def fire_method(self, body, env):
         c = self.ctx
         env.state_tx = "s"
-        notifies = any(isinstance(n, ast.Call) and isinstance(n.func, ast.Attribute) and n.func.attr == "notify"
-                       for st in body for n in ast.walk(st))
-        if not notifies:
+        if not self.notifies(body):
             return self.block(body, env, self.finish)
         n = 0
-        while n < len(body) and isinstance(body[n], ast.If) and not body[n].orelse and len(body[n].body) == 1 \
-                and isinstance(body[n].body[0], ast.Raise):
+        while n < len(body) and self.is_guard(body[n]):
             n += 1
         evs = [v for v in env.locals.values() if v.ty == "EvArg"]
         if len(evs) != 1:
